@@ -144,6 +144,8 @@ class Check(PropertyCheck):
             yield Scenario(["new", "cpnew", f"mark bigdur {rng.randint(0, 10**6)}"], {"families": "bigdur", "solves": 1})
         for k in range(4 if tier == "quick" else 30):
             yield Scenario(["new", "cpnew", f"mark stalemeta {rng.randint(0, 10**6)}"], {"families": "stalemeta", "solves": 1})
+        for k in range(3 if tier == "quick" else 20):
+            yield Scenario(["new", "cpnew", f"mark hugedur {rng.randint(0, 10**6)}"], {"families": "hugedur", "solves": 1})
         if tier == "thorough":
             for name in ["ft06", "la01", "la05", "orb01"][: 4]:
                 yield Scenario(["new", "cpnew", f"mark benchmark {name}"], {"families": "benchmark", "solves": 1})
@@ -185,6 +187,29 @@ class Check(PropertyCheck):
             jobs = [[(list(op.machines), op.duration) for op in job] for job in inst.jobs]
             ctx["timelimit_status"] = sched.metadata.get("status")
             res += self.check_schedule(inst, jobs, sched, brute=False)
+        elif line.startswith("mark hugedur"):
+            # durations beyond 2**53 (odd ones are not representable as doubles): the model is integer arithmetic
+            from impl_ext import _ORToolsSolver, _NoSolution
+            r = random.Random(int(line.split()[2]))
+            big = 2 ** r.choice([53, 54, 55])
+            jobs = [[([r.randrange(2)], big * r.randint(0, 1) + 2 * r.randint(1, 50) + 1) for _ in range(r.randint(1, 2))]
+                    for _ in range(r.randint(2, 3))]
+            if not any(d >= 2 ** 53 for job in jobs for _, d in job):
+                jobs[0][0] = (jobs[0][0][0], big + 1)
+            opt = brute_force_optimum(jobs)
+            inst = build_instance(jobs)
+            try:
+                sched = _ORToolsSolver().solve(inst)
+            except _NoSolution:
+                res.append(("no-solution", f"NoSolutionFoundError without a time limit (instance {jobs})"))
+                return res
+            except Exception as e:  # pylint: disable=broad-except
+                res.append(("solve-raised", f"solve raised {e!r} (instance {jobs})"))
+                return res
+            res += self.check_schedule(inst, jobs, sched)
+            if sched.metadata.get("status") == "optimal" and sched.makespan() != opt:
+                res.append(("not-optimal", f"status optimal with makespan {sched.makespan()}, exhaustive search finds {opt} "
+                            f"(instance {jobs})"))
         elif line.startswith("mark stalemeta"):
             # free-form metadata (also keys that look like bounds, as the benchmark instances carry them) is not part of
             # the problem: a small instance with made-up `lower_bound` / `upper_bound` / `optimum` entries
